@@ -498,7 +498,137 @@ PROFILES = {
 
 
 def generate(profile, seed, params=None):
+    if profile == 'threads':
+        return gen_threads(seed, params)
     p = dict(PROFILES.get(profile, {}))
     if params:
         p.update(params)
     return Gen(seed, p).generate(profile)
+
+
+# ----------------------------------------------------------------------
+# threads: independent operations issued from 2-3 threads on one builder
+def gen_sched(rng, n_threads=2):
+    r = rng.random()
+    if r < 0.45:
+        return {'policy': 'random', 'seed': rng.randrange(1 << 30),
+                'p': rng.choice([0.05, 0.15, 0.3, 0.6])}
+    if r < 0.6:
+        return {'policy': 'pct', 'seed': rng.randrange(1 << 30),
+                'd': rng.randint(1, 3), 'steps': rng.choice([60, 150, 300])}
+    return {'policy': 'sweep', 'thread': rng.randint(1, n_threads),
+            'at': rng.randint(0, 70)}
+
+
+def gen_threads(seed, params=None):
+    """Scenario for C09 / C08-threads: operations that do not depend on each
+    other, issued concurrently; history = builds (threaded), mutations of
+    static inputs, unchanged rebuild, clean."""
+    P = dict(p_same_key=0.0, p_fail=0.25, p_in_sub=0.3, p_crash_last=0.0,
+             p_tamper=0.3, p_seq_first=0.25, n_threads=(2, 3))
+    if params:
+        P.update(params)
+    rng = random.Random(seed)
+    nt = rng.randint(*P['n_threads'])
+    dirs = rng.sample(['d', 'd/e', 'g', 'd/e/h', ''], rng.randint(1, 3))
+    funcs = {
+        'Fok': {'kind': 'file', 'name': 'nFok', 'variants': [
+            [['q', 'read_text', 'x0', 'METADATA'], ['w', 'once']]]},
+        'Fok2': {'kind': 'file', 'name': 'nFok2', 'variants': [
+            [['w', 'twice'], ['q', 'declare_read', 'x1', 'HASH']]]},
+        'Fbad': {'kind': 'file', 'name': 'nFbad', 'variants': [
+            [['w', 'once'], ['raise', 'UserError']]]},
+        'Fnone': {'kind': 'file', 'name': 'nFnone', 'variants': [[]]},
+    }
+    init = [['write', 'x0', 'in0'], ['write', 'x1', 'in1']]
+    if rng.random() < 0.4:
+        init.append(['mkdir', rng.choice(['d', 'g', 'd/e'])])
+    bodies = []
+    outputs = []
+    for i in range(nt):
+        body = []
+        for j in range(rng.randint(1, 3)):
+            r = rng.random()
+            d = rng.choice(dirs)
+            rel = (d + '/' if d else '') + 't%d%s' % (i, 'abc'[j])
+            if r < 0.65:
+                bad = rng.random() < P['p_fail']
+                fid = rng.choice(['Fbad', 'Fnone']) if bad else \
+                    rng.choice(['Fok', 'Fok2'])
+                body.append(['bf', rel, fid, [i], {}, rng.choice(
+                    ['METADATA', 'HASH']), True])
+                if not bad:
+                    outputs.append(rel)
+                    if rng.random() < 0.5:
+                        body.append(['q', rng.choice(
+                            ['is_file', 'read_text', 'get_size', 'exists']),
+                            rel, 'METADATA'])
+            elif r < 0.85:
+                sid = 'S%d%d' % (i, j)
+                inner = [['q', 'read_binary', 'x1', 'HASH']]
+                if rng.random() < 0.6:
+                    nrel = (d + '/' if d else '') + 's%d%s' % (i, 'abc'[j])
+                    inner.append(['bf', nrel, 'Fok', [i, j], {}, 'METADATA',
+                                  True])
+                    outputs.append(nrel)
+                funcs[sid] = {'kind': 'sub', 'name': 'n' + sid,
+                              'variants': [inner]}
+                body.append(['sb', sid, [i], {}, True])
+            else:
+                body.append(['q', rng.choice(['read_text', 'is_file',
+                                              'get_size']),
+                             rng.choice(['x0', 'x1']), 'METADATA'])
+        bodies.append(body)
+    spawn = ['spawn', bodies]
+    if rng.random() < P['p_same_key']:
+        # C08: the same key from two threads (identical bodies)
+        d = rng.choice(dirs)
+        rel = (d + '/' if d else '') + 'same'
+        if rng.random() < 0.6:
+            b = [['bf', rel, rng.choice(['Fok', 'Fok2', 'Fbad']), [], {},
+                  'METADATA', True]]
+            outputs.append(rel)
+        else:
+            funcs['Ssame'] = {'kind': 'sub', 'name': 'nSsame', 'variants': [
+                [['q', 'read_text', 'x0', 'METADATA']]]}
+            b = [['sb', 'Ssame', [1], {}, True]]
+        spawn = ['spawn', [list(b) for _ in range(nt)], 'sym']
+    post = [['probe', sorted(set(
+        [''] + outputs + [a for o in outputs for a in ancestors(o)]))]]
+    if rng.random() < P['p_in_sub']:
+        funcs['ST'] = {'kind': 'sub', 'name': 'nST', 'variants': [[spawn]]}
+        root = [['sb', 'ST', [], {}, True]] + post
+    else:
+        root = [spawn] + post
+    roots = [root]
+    steps = []
+    b1 = {'op': 'build', 'root': 0, 'versions': {}}
+    if rng.random() >= P['p_seq_first']:
+        b1['sched'] = gen_sched(rng, nt)
+    steps.append(b1)
+    r = rng.random()
+    if r < 0.5:
+        muts = []
+        if rng.random() < 0.6:
+            muts.append(['write', rng.choice(['x0', 'x1']), 'changed'])
+        if outputs and rng.random() < P['p_tamper']:
+            for o in rng.sample(outputs, min(len(outputs),
+                                             rng.randint(1, 3))):
+                muts.append(['write', o, 'tampered'])
+        if muts:
+            steps.append({'op': 'mutate', 'muts': muts})
+    steps.append({'op': 'build', 'root': 0, 'versions': {},
+                  'sched': gen_sched(rng, nt)})
+    if rng.random() < 0.5:
+        steps.append({'op': 'build', 'root': 0, 'versions': {},
+                      'sched': gen_sched(rng, nt)})
+    steps.append({'op': 'clean'})
+    return {
+        'profile': 'threads', 'seed': seed,
+        'config': {'cache_rel': rng.choice(['../cache.gz', 'cache.gz',
+                                            '../cd/cache.gz']),
+                   'build_name': 'B',
+                   'listdir_seed': rng.randrange(1 << 30)},
+        'init': init, 'funcs': funcs, 'roots': roots, 'steps': steps,
+        'n_threads': nt,
+    }
